@@ -3,6 +3,7 @@ package main
 import (
 	"fmt"
 	"os"
+	"os/exec"
 	"path/filepath"
 	"strconv"
 	"strings"
@@ -183,6 +184,13 @@ func c09Judge(ctx *Ctx, res *Result, c c09Case, shown, panicked, verdict string)
 // c09Run checks a batch of cases: the implementation runs sequentially (G is a
 // global), the oracle in parallel processes.
 func c09Run(ctx *Ctx, res *Result, cases []c09Case, kind string, distinct map[c09Case]bool) {
+	c09RunGen(ctx, res, len(cases), func(i int) c09Case { return cases[i] }, kind, distinct)
+}
+
+// c09RunGen is c09Run over cases given by index (the exhaustive domain is not materialised).
+// Nontrivial cases are counted into res.DistinctNontrivial: directly when distinct == nil
+// (the caller guarantees the cases are pairwise distinct), else via the map.
+func c09RunGen(ctx *Ctx, res *Result, ncases int, get func(int) c09Case, kind string, distinct map[c09Case]bool) {
 	const block = 100000
 	type job struct {
 		lo, hi   int
@@ -206,20 +214,21 @@ func c09Run(ctx *Ctx, res *Result, cases []c09Case, kind string, distinct map[c0
 				}
 				for i := range j.reqs {
 					if j.panicked[i] != "" || ans[i] != "1 11111" {
-						c09Judge(ctx, res, cases[j.lo+i], j.shown[i], j.panicked[i], ans[i])
+						c09Judge(ctx, res, get(j.lo+i), j.shown[i], j.panicked[i], ans[i])
 					}
 				}
 			}
 		}()
 	}
-	for lo := 0; lo < len(cases); lo += block {
+	nontrivial := 0
+	for lo := 0; lo < ncases; lo += block {
 		hi := lo + block
-		if hi > len(cases) {
-			hi = len(cases)
+		if hi > ncases {
+			hi = ncases
 		}
 		j := job{lo, hi, make([]string, hi-lo), make([]string, hi-lo), make([]string, hi-lo)}
 		for i := lo; i < hi; i++ {
-			c := cases[i]
+			c := get(i)
 			lines, shown, panicked := c09Impl(c)
 			j.shown[i-lo], j.panicked[i-lo] = shown, panicked
 			if panicked != "" {
@@ -227,10 +236,15 @@ func c09Run(ctx *Ctx, res *Result, cases []c09Case, kind string, distinct map[c0
 			} else {
 				j.reqs[i-lo] = "chk " + bit(c.mk) + " " + hx(c.input) + " " + shown
 			}
-			if c09Stats(res, c, lines) && distinct != nil {
-				distinct[c] = true
+			if c09Stats(res, c, lines) {
+				if distinct == nil {
+					nontrivial++
+				} else if !distinct[c] {
+					distinct[c] = true
+					nontrivial++
+				}
 			}
-			if (i == 12345 || i == 700001 || i == len(cases)-3) && panicked == "" {
+			if (i == 12345 || i == 700001 || i == ncases-3) && panicked == "" {
 				res.Sample(map[string]any{"input": q(c.input), "mode": c09Mode(c.mk), "impl": shown, "kind": kind})
 			}
 		}
@@ -238,30 +252,39 @@ func c09Run(ctx *Ctx, res *Result, cases []c09Case, kind string, distinct map[c0
 	}
 	close(jobs)
 	wg.Wait()
-	res.Evaluations += len(cases)
-	res.TracesValidated += len(cases)
-	res.Count(kind+"_cases", len(cases))
+	res.Evaluations += ncases
+	res.TracesValidated += ncases
+	res.DistinctNontrivial += nontrivial
+	res.Count(kind+"_cases", ncases)
 }
 
-func c09Exhaustive(maxLen int) []c09Case {
-	var out []c09Case
-	cur := []string{""}
+// c09Exhaustive enumerates (string, mode) for all strings of length <= maxLen
+// over the alphabet, by index: strings ordered by length, then as base-7 numbers;
+// even index = makefile mode, odd = plain mode.
+func c09Exhaustive(maxLen int) (int, func(int) c09Case) {
+	k := len(c09Alphabet)
+	start := []int{0} // start[n] = index of the first string of length n
+	pow := 1
 	for n := 0; n <= maxLen; n++ {
-		for _, s := range cur {
-			out = append(out, c09Case{s, true}, c09Case{s, false})
-		}
-		if n == maxLen {
-			break
-		}
-		next := make([]string, 0, len(cur)*len(c09Alphabet))
-		for _, s := range cur {
-			for _, b := range c09Alphabet {
-				next = append(next, s+string(b))
-			}
-		}
-		cur = next
+		start = append(start, start[n]+pow)
+		pow *= k
 	}
-	return out
+	total := start[maxLen+1]
+	return 2 * total, func(i int) c09Case {
+		mk := i%2 == 0
+		i /= 2
+		n := 0
+		for start[n+1] <= i {
+			n++
+		}
+		i -= start[n]
+		b := make([]byte, n)
+		for p := n - 1; p >= 0; p-- {
+			b[p] = c09Alphabet[i%k]
+			i /= k
+		}
+		return c09Case{string(b), mk}
+	}
 }
 
 // c09RandomText: three streams - the property's alphabet, line-structured
@@ -319,6 +342,83 @@ func c09RandomText(rng *Rng, maxLen int) string {
 		s += "\n"
 	}
 	return s
+}
+
+// ---- the extraction itself: vm_compute in coqc against the extracted oracle ----
+
+func c09CoqStr(s string) string {
+	parts := make([]string, len(s))
+	for i := 0; i < len(s); i++ {
+		parts[i] = strconv.Itoa(int(s[i]))
+	}
+	return "[" + strings.Join(parts, ";") + "]"
+}
+
+// c09CoqValue renders an oracle answer "ok <eof> <lines>" as the Gallina value of
+// convert_to_logical_lines.
+func c09CoqValue(ans string) (string, bool) {
+	f := strings.Fields(ans)
+	if len(f) != 3 || f[0] != "ok" {
+		return "", false
+	}
+	var ls []string
+	if f[2] != "-" {
+		for _, l := range strings.Split(f[2], ";") {
+			p := strings.Split(l, ":")
+			if len(p) != 3 {
+				return "", false
+			}
+			var raws []string
+			if p[2] != "_" {
+				for _, r := range strings.Split(p[2], ",") {
+					raws = append(raws, c09CoqStr(unhx(r)))
+				}
+			}
+			ls = append(ls, fmt.Sprintf("mk_line %s %s [%s]", p[0], c09CoqStr(unhx(p[1])), strings.Join(raws, ";")))
+		}
+	}
+	return fmt.Sprintf("Ok ([%s], %v)", strings.Join(ls, "; "), f[1] == "1"), true
+}
+
+func c09CrossCheckExtraction(ctx *Ctx, res *Result, cases []c09Case) {
+	reqs := make([]string, len(cases))
+	for i, c := range cases {
+		reqs[i] = "conv " + bit(c.mk) + " " + hx(c.input)
+	}
+	ans, err := runOracle(ctx, "c09", reqs)
+	if err != nil {
+		res.Broken = err.Error()
+		return
+	}
+	var sb strings.Builder
+	sb.WriteString("From PV Require Import Lib.Bytes Model.Lines.\nOpen Scope N_scope.\n")
+	for i, c := range cases {
+		v, ok := c09CoqValue(ans[i])
+		if !ok {
+			res.Broken = "oracle answer " + q(ans[i])
+			return
+		}
+		fmt.Fprintf(&sb, "Example case_%d : convert_to_logical_lines %s %v = %s.\nProof. vm_compute. reflexivity. Qed.\n", i, c09CoqStr(c.input), c.mk, v)
+	}
+	file := filepath.Join(ctx.Work, "c09cases.v")
+	if err := os.WriteFile(file, []byte(sb.String()), 0o644); err != nil {
+		res.Broken = err.Error()
+		return
+	}
+	cmd := exec.Command("timeout", "300", "coqc", "-Q", filepath.Join(ctx.Verif, "coq"), "PV", file)
+	cmd.Dir = ctx.Work
+	out, err := cmd.CombinedOutput()
+	if err != nil {
+		msg := string(out)
+		if len(msg) > 600 {
+			msg = msg[:600]
+		}
+		res.AddViolation(Violation{Key: "C09/extraction-vs-vm_compute",
+			What:       "the extracted oracle and coqc's vm_compute disagree on the model (or coqc failed): " + msg,
+			FoundInput: false, Replay: map[string]any{"broken": "extraction cross-check", "detail": msg}})
+		return
+	}
+	res.Count("vm_compute_cross_checked", len(cases))
 }
 
 // ---- write-back ----
@@ -471,20 +571,39 @@ func c09RandomSave(rng *Rng) c09SaveCase {
 func runC09(ctx *Ctx) *Result {
 	res := &Result{Rule: "cases = (byte string, mode); exhaustive: every string of length <= L over {backslash, LF, CR, space, tab, #, a} in makefile and plain mode, then seeded random strings up to 200 bytes (property alphabet / line-structured makefile text / arbitrary bytes incl. NUL and non-ASCII), with and without final newline; non-trivial = makefile mode: some logical line has >= 2 physical lines, or ends in an even backslash run, or a continuation meets EOF; plain mode: >= 2 lines or no final newline; distinct by (string, mode). Save scripts: random text <= 80 bytes with 0-3 Autofix operations on random lines."}
 	rng := NewRng(ctx.Seed)
-	maxLen, nrand, nsave := 7, 10000, 3000
+	maxLen, nrand, nsave := 7, 30000, 5000
 	if ctx.Tier == "thorough" {
 		maxLen, nrand, nsave = 8, 1000000, 100000
 	}
-	distinct := map[c09Case]bool{}
-	c09Run(ctx, res, c09Exhaustive(maxLen), "exhaustive", distinct)
+	nexh, getExh := c09Exhaustive(maxLen)
+	c09RunGen(ctx, res, nexh, getExh, "exhaustive", nil)
 	if res.Broken != "" {
 		return res
 	}
+	// random cases: distinct among themselves; the few that repeat an exhaustive case (length <= maxLen
+	// over the alphabet) are not counted again
+	distinct := map[c09Case]bool{}
 	var rnd []c09Case
-	for i := 0; i < nrand; i++ {
-		rnd = append(rnd, c09Case{c09RandomText(rng, 200), rng.Chance(70)})
+	for len(rnd) < nrand {
+		c := c09Case{c09RandomText(rng, 200), rng.Chance(70)}
+		if len(c.input) <= maxLen && strings.Trim(c.input, string(c09Alphabet)) == "" {
+			continue // already in the exhaustive part
+		}
+		rnd = append(rnd, c)
 	}
 	c09Run(ctx, res, rnd, "random", distinct)
+	if res.Broken != "" {
+		return res
+	}
+	// a sample of the same cases through coqc (guards extraction and the OCaml driver)
+	var cross []c09Case
+	for i := 0; i < 60; i++ {
+		cross = append(cross, getExh(rng.Intn(nexh)))
+	}
+	for i := 0; i < 40 && i < len(rnd); i++ {
+		cross = append(cross, rnd[i])
+	}
+	c09CrossCheckExtraction(ctx, res, cross)
 	if res.Broken != "" {
 		return res
 	}
@@ -493,7 +612,6 @@ func runC09(ctx *Ctx) *Result {
 		saves = append(saves, c09RandomSave(rng))
 	}
 	c09RunSave(ctx, res, saves)
-	res.DistinctNontrivial = len(distinct)
 	res.Exhaustive = false
 	res.Count("exhaustive_max_len", maxLen)
 
